@@ -49,6 +49,7 @@ class I2CEnv:
         self.stuck = None
         self.finished_at = None
         self.spurious_fired = 0
+        self.params_changed = 0
         self.late_data_used = 0
         self.seen_busy_low = False
         self.wait = ops[0].get("delay", 0) if ops else 0
@@ -115,6 +116,14 @@ class I2CEnv:
         elif self.k >= 0 and self.windows[self.k][1] is None:
             # extra strobes while the operation is in progress
             op = self.ops[self.k]
+            if op.get("params_after") == "invert" and t == self.windows[self.k][0] + 1:
+                # data_i / ack_i are only valid in the strobe cycle: the requester moves on to other values right after it
+                if op["op"] == "write":
+                    pins["data_i"] = op["data"] ^ 0xFF
+                    self.params_changed += 1
+                elif op["op"] == "read":
+                    pins["ack_i"] = 1 - op["ack"]
+                    self.params_changed += 1
             for off, kind in op.get("spurious", ()):
                 if t == self.windows[self.k][0] + off:
                     pins[kind] = 1
